@@ -145,6 +145,11 @@ func (s *SchedCheck) RunGenerated(c *spec.Case, env *run.Env) run.CaseResult {
 		res.Note = "runner: " + err.Error()
 		return res
 	}
+	// every fourth case keeps one scheduler cache (informers, status updater and whatever the scheduler keeps in
+	// memory between cycles) for all its cycles, like the real process; the others get a fresh cache per cycle
+	r.Persistent = c.Index%4 == 3
+	defer r.Close()
+	notSynced := 0
 	w := world.New(st, gen.NewRand(c.Seed, c.Index, 3), c.World)
 	faulty := c.Faults.PBindRequestCreateFails > 0 || c.Faults.PPodDeleteFails > 0 || c.Faults.PEvictCallFails > 0
 	var hist []CycleRecord
@@ -152,6 +157,9 @@ func (s *SchedCheck) RunGenerated(c *spec.Case, env *run.Env) run.CaseResult {
 	for cyc := 1; cyc <= c.Cycles; cyc++ {
 		before := st.ReadAll()
 		cr := r.Cycle()
+		if cr.NotSynced {
+			notSynced++
+		}
 		after := st.ReadAll()
 		rec := CycleRecord{Cycle: cyc, Events: cr.Events, Panic: cr.Panic}
 		stats.Inc("cycles")
@@ -203,6 +211,13 @@ func (s *SchedCheck) RunGenerated(c *spec.Case, env *run.Env) run.CaseResult {
 	}
 	res.Counters = stats.Counters
 	res.NonTrivial = stats.NonTrivial
+	if r.Persistent {
+		stats.Inc("cases_with_persistent_scheduler_cache")
+	}
+	if notSynced > 0 && len(viols) == 0 {
+		res.Verdict = run.Inconclusive
+		res.Note = fmt.Sprintf("persistent scheduler cache did not catch up with the store before %d cycle(s)", notSynced)
+	}
 	if panicked && len(viols) == 0 {
 		res.Verdict = run.Inconclusive
 		res.Note = "scheduler cycle panicked (see C10)"
